@@ -47,7 +47,7 @@ def known_attach_classes(v, cont, obj, via):
 # ---------------------------------------------------------------- opcodes
 # each returns the list of objects it created
 
-def op_append(v, uni):
+def op_append(v, uni, ctx):
     cont = v.pick("cont", uni.containers)
     obj = v.pick("obj", uni.secs + uni.props)
     known_attach_classes(v, cont, obj, "append")
@@ -55,7 +55,7 @@ def op_append(v, uni):
     return []
 
 
-def op_insert(v, uni):
+def op_insert(v, uni, ctx):
     cont = v.pick("cont", uni.containers)
     obj = v.pick("obj", uni.secs + uni.props)
     pos = v.pick("pos", [0, 1, -1, 7])
@@ -64,7 +64,7 @@ def op_insert(v, uni):
     return []
 
 
-def op_extend(v, uni):
+def op_extend(v, uni, ctx):
     import odml
     cont = v.pick("cont", uni.containers)
     pool = uni.secs + uni.props
@@ -83,14 +83,14 @@ def op_extend(v, uni):
     return [second]
 
 
-def op_remove(v, uni):
+def op_remove(v, uni, ctx):
     cont = v.pick("cont", uni.containers)
     obj = v.pick("obj", uni.secs + uni.props)
     cont.remove(obj)
     return []
 
 
-def op_set_parent(v, uni):
+def op_set_parent(v, uni, ctx):
     obj = v.pick("obj", uni.secs + uni.props)
     k = v.choice("newparent", 1 + len(uni.containers))
     newp = None if k == 0 else uni.containers[k - 1]
@@ -100,7 +100,7 @@ def op_set_parent(v, uni):
     return []
 
 
-def op_setitem(v, uni):
+def op_setitem(v, uni, ctx):
     cont = v.pick("cont", uni.secs if uni.props else uni.containers)
     obj = v.pick("obj", uni.secs + uni.props)
     on_props = C.is_prop(obj) if uni.props else False
@@ -112,14 +112,14 @@ def op_setitem(v, uni):
     return []
 
 
-def op_reorder(v, uni):
+def op_reorder(v, uni, ctx):
     obj = v.pick("obj", uni.secs + uni.props)
     idx = v.pick("idx", [0, 1, 2, -1, 5])
     obj.reorder(idx)
     return []
 
 
-def op_rename(v, uni):
+def op_rename(v, uni, ctx):
     obj = v.pick("obj", uni.secs + uni.props)
     kind = v.choice("newname.kind", 4)
     if kind == 0:
@@ -136,7 +136,7 @@ def op_rename(v, uni):
     return []
 
 
-def op_ctor_section(v, uni):
+def op_ctor_section(v, uni, ctx):
     import odml
     cont = v.pick("cont", uni.containers)
     name = C.sym_name(v, "newname", 1, uni.secs)
@@ -145,7 +145,7 @@ def op_ctor_section(v, uni):
     return [odml.Section(name=name, type="t", parent=cont)]
 
 
-def op_ctor_property(v, uni):
+def op_ctor_property(v, uni, ctx):
     import odml
     cont = v.pick("cont", uni.secs)
     name = C.sym_name(v, "newname", 1, uni.props)
@@ -154,7 +154,7 @@ def op_ctor_property(v, uni):
     return [odml.Property(name=name, values=[1], parent=cont)]
 
 
-def op_clone_attach(v, uni):
+def op_clone_attach(v, uni, ctx):
     src = v.pick("src", uni.secs + uni.props)
     dst = v.pick("dst", uni.containers)
     keep = v.bool("keep_id")
@@ -163,7 +163,7 @@ def op_clone_attach(v, uni):
     return [copy]
 
 
-def op_merge(v, uni):
+def op_merge(v, uni, ctx):
     dst = v.pick("dst", uni.secs)
     src = v.pick("src", uni.secs)
     v.assume(dst is not src)
@@ -172,13 +172,14 @@ def op_merge(v, uni):
     return []
 
 
-def op_link(v, uni):
+def op_link(v, uni, ctx):
     sec = v.pick("sec", uni.secs)
     if v.bool("clean"):
         tgt = v.pick("tgt", uni.secs)
         v.assume(tgt is not sec and tgt._parent is not None and sec._parent is not None)
         v.assume(not _descends_from(tgt, sec) and not _descends_from(sec, tgt))
         sec.link = tgt.get_path()
+        ctx.mark()          # the operation under test is clean(); the resolved link is part of the pre-state
         sec.clean()
     else:
         k = v.choice("tgt", 1 + len(uni.secs))
@@ -206,11 +207,26 @@ def universe_for(v, opcode, variant):
     quick tier   : names are free symbolic strings of length exactly 1 (all of Unicode)
     thorough tier: length <= 1 (the empty name falls back to the id) or the id of an earlier object
     """
-    full = (v.tier == "thorough") and opcode not in ("link",)
+    full = (v.tier == "thorough")
     kw = dict(name_len=1, id_names=full, name_minlen=0 if full else 1)
+    if opcode == "link":
+        # path strings reach posixpath (C code in 3.12): names from a concrete pool
+        kw = dict(name_pool=["a", "ab", "b"])
     if variant == "S":
         return C.build_universe(v, 1, 3, 0, **kw)
     return C.build_universe(v, 1, 2, 2, **kw)
+
+
+class _Ctx(object):
+    def __init__(self, objs, want_snapshot):
+        self.objs = objs
+        self.want = want_snapshot
+        self.before = C.snapshot(objs) if want_snapshot else None
+
+    def mark(self):
+        """Everything done so far belongs to the pre-state."""
+        if self.want:
+            self.before = C.snapshot(self.objs)
 
 
 def step(v, opcode, variant, mode):
@@ -226,15 +242,16 @@ def step(v, opcode, variant, mode):
         raise Violation("harness: API-built pre-state is not well-formed: " + pre)
     if mode == "names" and C.names_problems(objs) is not None:
         raise Violation("harness: API-built pre-state violates name/id invariant")
-    before = C.snapshot(objs) if mode == "frame" else None
+    ctx = _Ctx(objs, mode == "frame")
     created = []
     raised = None
     try:
-        created = OPS[opcode](v, uni)
+        created = OPS[opcode](v, uni, ctx)
         v.label("succeeded")
     except Violation:
         raise
     except Exception as exc:  # noqa  (engine control flow exceptions are BaseException)
+        v.classify(exc)
         raised = exc
         v.label("raised")
         v.label("raised:" + type(exc).__name__)
@@ -252,7 +269,7 @@ def step(v, opcode, variant, mode):
             raise Violation("after %s: %s" % (opcode, problem))
     elif mode == "frame":
         if raised is not None:
-            diff = C.snapshot_diff(before, C.snapshot(objs))
+            diff = C.snapshot_diff(ctx.before, C.snapshot(objs))
             if diff is not None:
                 v.note("exception", type(raised).__name__)
                 raise Violation("%s raised %s but %s" % (opcode, type(raised).__name__, diff))
